@@ -373,7 +373,7 @@ func runPairs(repo, work string, r *vl.Rng, npairs, nvalues int, out *vl.Out) (*
 			out.Count("b.w.unstable-normal-form")
 			continue
 		}
-		if po := project(w.p.newS, w.p.oldS, w.sidx, norm); true {
+		if po := project(w.p.newS, w.p.oldS, w.sidx, norm); !unknownUnionMember(w.p.newS, w.p.oldS, w.sidx, norm) {
 			if n3, err := refcodec.Normal(w.p.oldS, w.sidx, po); err != nil || !refcodec.Equal(n3, po) {
 				out.Count("b.w.unstable-normal-form-old")
 				continue
